@@ -97,7 +97,56 @@ def make_meta(template, nap, ns, labels, gain):
 # --------------------------------------------------------------------------
 # implementation runner
 # --------------------------------------------------------------------------
+def safe_int(x, default=-12345):
+    try:
+        return int(x)
+    except BaseException:           # noqa
+        return default
+
+
+class _Hang(BaseException):
+    """raised by the alarm when one conversion + reconstruction exceeds its time allowance"""
+
+
+def _alarm(signum, frame):
+    raise _Hang("no result after %d s of CPU time (or %d s wall)" % (IMPL_CPU_S, IMPL_WALL_S))
+
+
+# A normal conversion + reconstruction uses well under 3 s of CPU.  The limit is on CPU time of this process
+# (ITIMER_VIRTUAL), so that a heavily loaded machine cannot turn a slow run into a false 'hang'; the wall-clock
+# alarm only catches a dead-lock that burns no CPU.
+IMPL_CPU_S = 60
+IMPL_WALL_S = 1800
+_HANGS = [0]
+
+
 def run_impl(case, data):
+    """run_impl_inner under an alarm: an implementation that never returns becomes an observation
+    ('hang'), not a stuck check."""
+    import signal
+    if _HANGS[0] >= 3:              # do not spend the whole budget waiting on an implementation that hangs
+        return {"error": ("hang", "Timeout", "not run: three earlier conversions did not return"),
+                "shanks": [], "recon": None, "orig_meta": {}}
+    old = signal.signal(signal.SIGALRM, _alarm)
+    oldv = signal.signal(signal.SIGVTALRM, _alarm)
+    signal.alarm(IMPL_WALL_S)
+    signal.setitimer(signal.ITIMER_VIRTUAL, IMPL_CPU_S)
+    try:
+        return run_impl_inner(case, data)
+    except _Hang as e:
+        _HANGS[0] += 1
+        return {"error": ("hang", "Timeout", str(e)), "shanks": [], "recon": None, "orig_meta": {}}
+    except BaseException as e:      # noqa  anything the inner guards let through
+        return {"error": ("harness-guard", type(e).__name__, str(e)[:200]), "shanks": [], "recon": None,
+                "orig_meta": {}}
+    finally:
+        signal.setitimer(signal.ITIMER_VIRTUAL, 0)
+        signal.alarm(0)
+        signal.signal(signal.SIGALRM, old)
+        signal.signal(signal.SIGVTALRM, oldv)
+
+
+def run_impl_inner(case, data):
     """Real NP2Converter(...).process() then NP2Reconstructor(...).process() on a synthetic recording.
     Returns a dict of observations; 'error' holds (stage, exception class name, text) if one was raised."""
     spikeglx, neuropixel = _impl()
@@ -123,20 +172,27 @@ def run_impl(case, data):
             obs["s2v_bits"] = [int(x) for x in np.asarray(s2v, dtype=np.float32).view(np.uint32)[[0, -1]]]
             obs["s2v_dtype"] = str(s2v.dtype)
             conv.init_params(nwindow=float(case["W"]) if case.get("wfloat") else case["W"])
-            obs["status"] = int(conv.process())
-        except Exception as e:          # noqa
+            obs["status"] = safe_int(conv.process())
+        except _Hang:
+            raise
+        except BaseException as e:      # noqa
             obs["error"] = ("convert", type(e).__name__, str(e)[:200])
             return obs
         finally:
             if conv is not None:
                 try:
                     conv.sr.close()
-                except Exception:       # noqa
+                except BaseException:   # noqa
                     pass
+        try:                             # the original recording and its metadata must be left as they were
+            obs["orig_untouched"] = bool(np.array_equal(np.fromfile(f, dtype=np.int16), data.ravel())
+                                         and f.with_suffix(".meta").read_text() == mtxt)
+        except BaseException:           # noqa
+            obs["orig_untouched"] = False
         try:
             for key, info in conv.shank_info.items():
                 apf = Path(info["ap_file"])
-                chns = [int(c) for c in info["chns"]]
+                chns = [int(c) for c in np.asarray(info["chns"]).ravel()]
                 if apf.suffix == ".cbin":       # compress=True: read the compressed shank file back
                     with spikeglx.Reader(apf, sort=False) as srs:
                         raw = np.array(srs._raw[0:srs.ns, :], dtype=np.int16).ravel()
@@ -148,7 +204,9 @@ def run_impl(case, data):
                 meta = dict(spikeglx.read_meta_data(apf.with_suffix(".meta")))
                 obs["shanks"].append({"key": key, "folder": apf.parent.name, "chns": chns, "raw": raw,
                                       "meta": meta, "nbytes": nbytes})
-        except Exception as e:          # noqa  (files the converter claims to have written are unreadable)
+        except _Hang:
+            raise
+        except BaseException as e:      # noqa  (files the converter claims to have written are unreadable)
             obs["error"] = ("collect", type(e).__name__, str(e)[:200])
             return obs
         obs["folders"] = sorted(p.name for p in base.iterdir() if p.name != "probe00")
@@ -158,9 +216,11 @@ def run_impl(case, data):
             rec = neuropixel.NP2Reconstructor(base, "probe00", compress=False)
             rstatus = rec.process()
             rf = base / "probe00" / BIN_NAME
-            obs["recon"] = {"status": int(rstatus), "raw": np.fromfile(rf, dtype=np.int16),
+            obs["recon"] = {"status": safe_int(rstatus), "raw": np.fromfile(rf, dtype=np.int16),
                             "meta": dict(spikeglx.read_meta_data(rf.with_suffix(".meta")))}
-        except Exception as e:          # noqa
+        except _Hang:
+            raise
+        except BaseException as e:      # noqa
             obs["error"] = ("reconstruct", type(e).__name__, str(e)[:200])
         return obs
     finally:
@@ -195,6 +255,8 @@ def oracle(case, data, obs):
     labels = np.array(case["labels"])
     if obs.get("status") != 1:
         bad.append(("status", "process() returned %r" % obs.get("status")))
+    if obs.get("orig_untouched") is False:
+        bad.append(("original", "the original .ap.bin / .ap.meta were modified by the conversion"))
     want = sorted(set(case["labels"]))
     got = [s["folder"] for s in obs["shanks"]]
     if got != ["probe00" + chr(97 + s) for s in want] or obs["folders"] != sorted(got):
@@ -312,7 +374,7 @@ def layout_case(case, obs):
     for s in obs["shanks"]:
         w = len(s["chns"])
         raw = s["raw"]
-        counter = (raw[w - 1::w] if raw.size % w == 0 else raw[:0]).astype(np.int64)
+        counter = (raw[w - 1::w] if (w > 0 and raw.size % w == 0) else raw[:0]).astype(np.int64)
         if counter.size:            # undo the int16 wrap of the row counter
             first = (counter[0] - case["sync_base"]) % 65536
             counter = first + np.r_[0, np.cumsum(np.diff(counter) % 65536)]
@@ -327,9 +389,9 @@ def layout_case(case, obs):
             rec = neuropixel.NP2Reconstructor.__new__(neuropixel.NP2Reconstructor)
             back = [int(x) for x in np.atleast_1d(rec._get_chans({"snsSaveChanSubset_orig": sub}))]
             back = [1, len(back)] + back
-        except Exception:           # noqa
+        except BaseException:       # noqa
             back = [0]
-        shl.append([int(s["meta"].get("NP2.4_shank", -1)), len(s["chns"])] + s["chns"]
+        shl.append([safe_int(s["meta"].get("NP2.4_shank", -1)), len(s["chns"])] + s["chns"]
                    + [len(sub)] + chars(sub) + back)
     rows_seen = rows_seen or []
     out += [1, len(rows_seen)] + [x for r in rows_seen for x in r]
@@ -382,8 +444,8 @@ def full_case(case, data, obs):
     out = [1, len(obs["shanks"])]
     for s in obs["shanks"]:
         w = len(s["chns"])
-        out += [int(s["meta"].get("NP2.4_shank", -1)), w] + s["chns"]
-        out += enc_rows(s["raw"].reshape(-1, w)) if s["raw"].size % w == 0 else [-1]
+        out += [safe_int(s["meta"].get("NP2.4_shank", -1)), w] + s["chns"]
+        out += enc_rows(s["raw"].reshape(-1, w)) if (w > 0 and s["raw"].size % w == 0) else [-1]
     rec = obs["recon"]
     if rec is None or rec["raw"].size % (nap + 1):
         out += [0]
@@ -400,7 +462,7 @@ def meta_cases(case, obs):
         it = Interner()
         with_rec = 1 if (i == 0 and obs["recon"] is not None) else 0
         fs_rec = int(obs["recon"]["raw"].size * 2) if with_rec else 0
-        sh = int(s["folder"][-1:].encode()[0]) - 97
+        sh = (s["folder"][-1:].encode() or b"?")[0] - 97
         inp = [4, with_rec, sh, s["nbytes"], nch, fs_rec, len(s["chns"])] + s["chns"] + it.meta(obs["orig_meta"])
         out = [1] + it.meta(s["meta"])
         if with_rec:
@@ -417,8 +479,10 @@ def codec_case(chns):
     try:
         back = [int(x) for x in np.atleast_1d(rec._get_chans({"snsSaveChanSubset_orig": s}))]
         backe = [1, len(back)] + back
-    except Exception:               # noqa
+    except BaseException:           # noqa
         back, backe = None, [0]
+    if not isinstance(s, str):      # the codec must produce a string; anything else is reported by the caller
+        raise TypeError("_get_savedChans_subset returned %s, not str" % type(s).__name__)
     return [5, len(chns)] + list(chns), [len(s)] + chars(s) + backe, (s, back)
 
 
@@ -500,7 +564,7 @@ def gen_cases(ctx):
     rng = ctx.rng
     cases = []
     big = 40 if ctx.thorough() else 12
-    small = 300 if ctx.thorough() else 60
+    small = 300 if ctx.thorough() else 48
     Ws_big = [588, 600, 1152, 1164, 1200, 1500, 2400, 3000, 6000, 60000]
     for i in range(big):
         W = Ws_big[i % len(Ws_big)] if i < len(Ws_big) else rng.choice(Ws_big + [12 * rng.randrange(49, 500)])
@@ -581,6 +645,17 @@ def build_data(case):
     return data
 
 
+def guarded(ctx, dsc, what, fn, *args, **kw):
+    """Canonicalisers read whatever a (possibly broken) implementation left behind; if one of them cannot
+    make sense of it, that is a model/implementation disagreement on this input, not a harness crash."""
+    try:
+        return fn(*args, **kw)
+    except BaseException as e:      # noqa
+        ctx.disagree("implementation output could not be canonicalised for the %s comparison: %s: %s"
+                     % (what, type(e).__name__, str(e)[:150]), dsc, {"kind": "malformed_output"})
+        return None
+
+
 def run(ctx):
     common.proof_obligations(
         ctx, whitelist=WHITELIST,
@@ -603,12 +678,18 @@ def run(ctx):
         data = build_data(case)
         obs = run_impl(case, data)
         dsc = describe(case)
-        for tag, msg in oracle(case, data, obs):
+        try:
+            verdicts = oracle(case, data, obs)
+        except BaseException as e:  # noqa  the files / metadata are not even comparable with the original
+            verdicts = [("malformed_output", "implementation output cannot be compared with the original: %s: %s"
+                         % (type(e).__name__, str(e)[:150]))]
+        for tag, msg in verdicts:
             ctx.fail(msg, dsc, {"kind": tag, "window_class": window_class(case)})
         dist["conversions"] += 1
         malformed = expected_status(case["W"]) is not None
         dist["malformed_window"] += malformed
-        inp, out = layout_case(case, obs) if (malformed or not obs["error"]) else (None, None)
+        lc = guarded(ctx, dsc, "layout", layout_case, case, obs) if (malformed or not obs["error"]) else None
+        inp, out = lc if lc else (None, None)
         if inp is not None:
             inputs.append(inp), outputs.append(out), descr.append(dict(dsc, mode="layout"))
         if malformed or obs["error"]:
@@ -634,21 +715,22 @@ def run(ctx):
         gains_seen.add(case["gain"])
         if nw > 1 and nsh > 1:
             nontrivial.add((nap, ns, W, tuple(case["labels"]), case["gain"], case["data_seed"]))
-        vc = values_case(case, data, obs, ctx.rng, cap=400)
+        vc = guarded(ctx, dsc, "values", values_case, case, data, obs, ctx.rng, cap=400)
         if vc:
             inputs.append(vc[0]), outputs.append(vc[1]), descr.append(dict(dsc, mode="values"))
             dist["values_compared"] += vc[0][4]
             if not vc[2]:
                 ctx.fail("the same sample value is written differently at different cells", dsc, {"kind": "content"})
         if nap == 384 and (ci < 3 or case.get("allvals")):   # every distinct value present, uncapped (extracted model only)
-            vb = values_case(case, data, obs, ctx.rng, cap=0)
+            vb = guarded(ctx, dsc, "values", values_case, case, data, obs, ctx.rng, cap=0)
             if vb:
                 inputs.append(vb[0]), outputs.append(vb[1]), descr.append(dict(dsc, mode="values_all"))
                 dist["values_compared"] += vb[0][4]
-        for mi, mo in meta_cases(case, obs):
+        for mi, mo in (guarded(ctx, dsc, "metadata", meta_cases, case, obs) or []):
             inputs.append(mi), outputs.append(mo), descr.append(dict(dsc, mode="meta"))
-        if case["full"]:
-            fi, fo = full_case(case, data, obs)
+        fc = guarded(ctx, dsc, "whole-file", full_case, case, data, obs) if case["full"] else None
+        if fc:
+            fi, fo = fc
             inputs.append(fi), outputs.append(fo), descr.append(dict(dsc, mode="full"))
             dist["full_model_runs"] += 1
             if kernel_full < 3 and len(fi) + len(fo) < 30000 and nw > 1:
@@ -664,7 +746,7 @@ def run(ctx):
     for chns in gen_codec(ctx):
         try:
             ci_, co_, (s, back) = codec_case(chns)
-        except Exception as e:          # noqa
+        except BaseException as e:      # noqa
             ctx.fail("_get_savedChans_subset raised %r" % (e,), {"chns": chns}, {"kind": "codec"})
             continue
         if back != list(chns):
